@@ -577,6 +577,8 @@ def run(job, ch, mode=None, table=None, cfg=None, kinds=None, runner=None):
     d = LoggedDoist(w, tock=T, real=False, limit=lim, doers=doers, tyme=start)
     w.doist = d
     w.result = None
+    if w.mode.stale_done:
+        d.done = True     # as left by an earlier, completed run of the same Doist
     if runner is not None:
         runner(w)
     else:
